@@ -51,7 +51,7 @@ ASSUMPTIONS = [
     "must equal the number of entries in the file; returning None must leave the bytes unchanged",
 ]
 
-A_VALUES = [0, 1, 2.5, -3]
+A_VALUES = [0, 1, 2.5, -3, 23, 22]  # 23 and 22 give ids sharing their first hex digit with others (abbreviated-id lookups)
 B_VALUES = ["x", {"n": 1}]
 UNIVERSE = [{"a": a, "b": b} for a in A_VALUES for b in B_VALUES]  # index = 2*ai + bi
 NU = len(UNIVERSE)
@@ -96,6 +96,17 @@ def _try(fn):
         return "RAISED %s: %s" % (type(e).__name__, str(e)[:80])
 
 
+def _prefix_outcome(project, prefix):
+    try:
+        return project.open_job(id=prefix).id
+    except KeyError:
+        return "KeyError"
+    except LookupError:
+        return "LookupError"
+    except Exception as e:  # noqa
+        return "RAISED %s" % type(e).__name__
+
+
 def panel(project, ids, filters):
     """Everything the statement quantifies over, asked of one Project object. `ids`: existing jobs only."""
     out = {}
@@ -109,6 +120,8 @@ def panel(project, ids, filters):
     out["open_id"] = {i: _try(lambda: project.open_job(id=i).id) for i in ids}
     out["contains_id"] = {i: _try(lambda: project.open_job(id=i) in project) for i in ids}
     out["contains_sp"] = {str(k): _try(lambda: project.open_job(copy.deepcopy(UNIVERSE[k])) in project) for k in range(NU)}
+    # abbreviated ids of existing jobs resolve against the workspace, never against (stale) cache entries
+    out["open_prefix"] = {i[:n]: _prefix_outcome(project, i[:n]) for i in ids for n in (1, 2, 3, 5)}
     out["iter_sp"] = _try(lambda: sorted((j.id, oracle.canon(j.statepoint())) for j in project))
     # again, now that the persistent cache has certainly been read into memory
     out["len_again"] = _try(lambda: len(project))
@@ -129,6 +142,11 @@ def expected_panel(model, filters):
     out["open_id"] = {i: i for i in ids}
     out["contains_id"] = {i: True for i in ids}
     out["contains_sp"] = {str(k): uid(k) in model for k in range(NU)}
+    out["open_prefix"] = {}
+    for i in ids:
+        for n in (1, 2, 3, 5):
+            m = [j for j in ids if j.startswith(i[:n])]
+            out["open_prefix"][i[:n]] = m[0] if len(m) == 1 else "LookupError"
     out["iter_sp"] = sorted((i, oracle.canon(model[i]["sp"])) for i in ids)
     out["len_again"] = len(ids)
     out["ids_again"] = ids
